@@ -58,6 +58,11 @@ def check_pipeline(case):
     cl = [f"mode={run.mode}"]
     nt = False
     for suf, text in run.raw.items():
+        # the reader the program itself holds (built in Program.__init__ from the maps it aligned), then one built the same way
+        own = getattr(run.program, "xmapReader", None)
+        if own is not None:
+            als0 = sut(own.readAlignments, io.StringIO(text))
+            compare(als0, run.parsed[suf], lambda i: run.refs[i], lambda i: run.queries[i], f"mode {run.mode} file {suf} (Program.xmapReader)")
         reader = XmapReader(XmapAlignmentPairWithDistanceParser(run.program.referenceMaps, run.program.queryMaps))
         als = sut(reader.readAlignments, io.StringIO(text))
         compare(als, run.parsed[suf], lambda i: run.refs[i], lambda i: run.queries[i], f"mode {run.mode} file {suf}")
